@@ -7,6 +7,7 @@ import (
 	"strconv"
 	"strings"
 	"sync"
+	"sync/atomic"
 	"time"
 
 	exserver "github.com/cybergarage/go-redis/examples/go-redisd/server"
@@ -16,6 +17,7 @@ import (
 func init() {
 	opRunners["stallw"] = runStallW
 	opRunners["massdisc"] = runMassDisc
+	opRunners["cfgstorm"] = runCfgStorm
 	opRunners["stallr"] = runStallR
 	opRunners["panicw"] = runPanicW
 }
@@ -156,6 +158,99 @@ func runMassDisc(toks []string) Result {
 		return Result{Obs: fmt.Sprintf("registry=%d", k), Oracle: fmt.Sprintf("fail:%d connections registered after all but one client went away", k), Tags: []string{"nt", "mass-disconnect"}}
 	}
 	return Result{Obs: "witness-served", Oracle: "ok", Tags: []string{"nt", "mass-disconnect"}}
+}
+
+// case: "cfgstorm <writers> <connectors> <ms>": <writers> clients pipeline CONFIG SET / CONFIG GET without a pause while
+// <connectors> clients connect, send one ECHO and disconnect in a loop, for <ms> milliseconds; then a witness connection
+// must be served. Whatever the configuration traffic of some clients, connections are set up and answered.
+func runCfgStorm(toks []string) Result {
+	writers, _ := strconv.Atoi(toks[1])
+	connectors, _ := strconv.Atoi(toks[2])
+	ms, _ := strconv.Atoi(toks[3])
+	tags := []string{"nt", "config-storm"}
+	srv := redis.NewServer()
+	srv.SetCommandHandler(newSafeHandler())
+	open := func() net.Conn {
+		cl, sv := net.Pipe()
+		go func() {
+			defer func() { recover() }()
+			srv.VerifServeConn(sv, nil)
+		}()
+		return cl
+	}
+	stop := make(chan struct{})
+	var wg sync.WaitGroup
+	var served, frozen int64
+	for w := 0; w < writers; w++ {
+		wg.Add(1)
+		go func(w int) {
+			defer wg.Done()
+			c := open()
+			defer c.Close()
+			rd := bufio.NewReader(c)
+			for i := 0; ; i++ {
+				select {
+				case <-stop:
+					return
+				default:
+				}
+				c.SetDeadline(time.Now().Add(3 * time.Second))
+				if i%3 == 2 {
+					c.Write(reqS("CONFIG", "GET", "k"+strconv.Itoa(w), "port"))
+				} else {
+					c.Write(reqS("CONFIG", "SET", "k"+strconv.Itoa(w), strconv.Itoa(i)))
+				}
+				if _, err := readReply(rd); err != nil {
+					atomic.AddInt64(&frozen, 1)
+					return
+				}
+			}
+		}(w)
+	}
+	for k := 0; k < connectors; k++ {
+		wg.Add(1)
+		go func() {
+			defer wg.Done()
+			for {
+				select {
+				case <-stop:
+					return
+				default:
+				}
+				c := open()
+				c.SetDeadline(time.Now().Add(3 * time.Second))
+				c.Write(reqS("ECHO", "hi"))
+				rep, err := readReply(bufio.NewReader(c))
+				c.Close()
+				if err != nil || string(rep) != "$2\r\nhi\r\n" {
+					atomic.AddInt64(&frozen, 1)
+					return
+				}
+				atomic.AddInt64(&served, 1)
+			}
+		}()
+	}
+	time.Sleep(time.Duration(ms) * time.Millisecond)
+	close(stop)
+	done := make(chan struct{})
+	go func() { wg.Wait(); close(done) }()
+	select {
+	case <-done:
+	case <-time.After(8 * time.Second):
+		return Result{Obs: "frozen", Oracle: "fail:clients were still waiting 8 s after the workload ended", Tags: tags}
+	}
+	if f := atomic.LoadInt64(&frozen); f > 0 {
+		return Result{Obs: "frozen", Oracle: fmt.Sprintf("fail:%d clients got no reply within 3 s (after %d served connections)", f, atomic.LoadInt64(&served)), Tags: tags}
+	}
+	w := open()
+	defer w.Close()
+	w.SetDeadline(time.Now().Add(2 * time.Second))
+	w.Write(reqS("PING"))
+	rep, err := readReply(bufio.NewReader(w))
+	if err != nil || string(rep) != "+PONG\r\n" {
+		return Result{Obs: "frozen", Oracle: "fail:a witness connection was not served after the configuration traffic", Tags: tags}
+	}
+	return Result{Obs: "witness-served", Oracle: "ok", Tags: tags}
 }
 
 // case: "stallr <payload> <prefix> <pause ms>": the client pipelines ECHO <payload bytes>, PING, ECHO x over an
